@@ -12,7 +12,8 @@ STYLE = {3: "asked for value-level changes that leave call graph/locks/loops alo
          7: "asked for a small new feature (new public method / builder option / enum variant / wrapper type, unused by existing code) whose availability breaks the property; the demo uses the new API and carries a fallback trait so that it compiles on the unmodified tree",
          8: "asked for impl-level and API-surface changes: trait impls and default methods (Drop, Clone, Default, Deref, From, forwarding impls, Fn* adapters), derives / #[default], visibility, sibling constructors wired differently, generic bounds - away from the bodies of the big pipeline functions",
          9: "asked for a performance optimisation that is subtly wrong: avoided clones / allocations, mem::take and put back, reused or cached snapshots, atomic fast-path counters, shrunk or merged critical sections, try_lock fast paths, batching / draining / coalescing, lock-free readers, caller-runs fast paths",
-         10: "asked for robustness / error-handling hardening that is subtly wrong: catch_unwind around callbacks, poisoned-lock tolerance, fallbacks for an empty pool / sender slot, re-entrancy detection, bounded waits and give-up paths, Drop guards, retry / restart logic, clamps"}
+         10: "asked for robustness / error-handling hardening that is subtly wrong: catch_unwind around callbacks, poisoned-lock tolerance, fallbacks for an empty pool / sender slot, re-entrancy detection, bounded waits and give-up paths, Drop guards, retry / restart logic, clamps",
+         11: "asked for observability / diagnostics / test-seam additions that are supposed to be behaviour-neutral (new gauges and histograms, live queue-length accessors, tracing wrappers, rate-limited error reports, per-subscriber statistics) but break the property; nothing existing is removed"}
 n = 0
 for f in sys.argv[2:]:
     for l in open(f):
